@@ -267,3 +267,24 @@ impl Engine for SimpleEng {
         false
     }
 }
+
+impl crate::drive::Driveable for SimpleEng {
+    fn random_cmd(s: &S, r: usize, rng: &mut rand::rngs::StdRng, _d: &Dims) -> Option<Value> {
+        use rand::Rng;
+        Some(match s {
+            S::G(_) => {
+                if rng.gen_bool(0.6) { json!({"c": "inc", "k": 1}) } else { json!({"c": "inc_many", "k": rng.gen_range(0..4u64)}) }
+            }
+            S::P(_) => match rng.gen_range(0..4) {
+                0 => json!({"c": "inc", "k": 1}),
+                1 => json!({"c": "dec", "k": 1}),
+                2 => json!({"c": "inc_many", "k": rng.gen_range(0..4u64)}),
+                _ => json!({"c": "dec_many", "k": rng.gen_range(0..4u64)}),
+            },
+            // markers are made unique: a random high part, the replica in the low digit
+            S::L(_) => json!({"c": "update", "v": rng.gen_range(1..=3i64), "mk": rng.gen_range(1..100_000_000u64) * 8 + r as u64}),
+            S::Mx(_) | S::Mn(_) => json!({"c": "write", "v": rng.gen_range(-3..=3i64)}),
+            S::St(_) => json!({"c": "insert", "v": rng.gen_range(1..=6i64)}),
+        })
+    }
+}
